@@ -598,8 +598,46 @@ void real_inputs() {
   }
 }
 
+// in-place scaling with a scalar that refers into the tensor's own storage: the textbook result uses the OLD value of that component
+template <class T, class X, class REF>
+void aliasing(const char* tag, const X& a, REF&& ref_of) {
+  constexpr int n = vf::count_of<X>();
+  T c[9];
+  vf::comps(a, c);
+  for (int k = 0; k < n; k++) {
+    if (c[k] == 0) continue;
+    X m = a, d = a;
+    m *= ref_of(m, k);
+    d /= ref_of(d, k);
+    T gm[9], gd[9];
+    vf::comps(m, gm);
+    vf::comps(d, gd);
+    vf::stat("integer_cases", 2);
+    for (int i = 0; i < n; i++)
+      if (!(gm[i] == c[i] * c[k]) || !(gd[i] == c[i] / c[k])) {
+        vf::viol(std::string("tensor|") + tag + " scaled in place by a reference to its own component|" + vf::TName<T>::value,
+                 "{\"operand\":" + vf::comps_hex(a) + ",\"component_index\":" + std::to_string(k) + ",\"after_times\":" + vf::comps_hex(m) + ",\"after_divide\":" + vf::comps_hex(d) + "}");
+        return;
+      }
+  }
+}
+template <class T>
+void aliasing_all() {
+  using namespace PhQ;
+  if (PART != 0) return;
+  const PlanarVector<T> pv((T)2, (T)-3);
+  const Vector<T> v((T)2, (T)-3, (T)5);
+  const SymmetricDyad<T> sd((T)2, (T)-3, (T)5, (T)7, (T)-11, (T)13);
+  const Dyad<T> d((T)2, (T)-3, (T)5, (T)7, (T)-11, (T)13, (T)17, (T)-19, (T)23);
+  aliasing<T>("PlanarVector", pv, [](PlanarVector<T>& x, int k) -> const T& { return x.Mutable_x_y()[k]; });
+  aliasing<T>("Vector", v, [](Vector<T>& x, int k) -> const T& { return x.Mutable_x_y_z()[k]; });
+  aliasing<T>("SymmetricDyad", sd, [](SymmetricDyad<T>& x, int k) -> const T& { return x.Mutable_xx_xy_xz_yy_yz_zz()[k]; });
+  aliasing<T>("Dyad", d, [](Dyad<T>& x, int k) -> const T& { return x.Mutable_xx_xy_xz_yx_yy_yz_zx_zy_zz()[k]; });
+}
+
 template <class T>
 void all() {
+  aliasing_all<T>();
   integer_grids<T>();
   real_inputs<T>();
   if (PART == 0 && std::is_same_v<T, double>) {
